@@ -115,7 +115,7 @@ func genPath(t *rapid.T) string {
 	return p
 }
 
-var qTok = rapid.StringMatching(`([A-Za-z0-9._~+-]|%26|%3D|%20){0,12}`)
+var qTok = rapid.StringMatching(`([A-Za-z0-9._~+-]|[;,:!*'()$@/?]|%26|%3D|%20|%3B){0,12}`)
 
 func genQuery(t *rapid.T) string {
 	if rapid.IntRange(0, 2).Draw(t, "hasq") == 0 {
@@ -135,7 +135,15 @@ func genQuery(t *rapid.T) string {
 			parts = append(parts, k+"="+qTok.Draw(t, "qv"))
 		}
 	}
-	return strings.Join(parts, "&")
+	// parts are separated by & (sometimes by ; as older clients do, or by a doubled &)
+	var sb strings.Builder
+	for i, p := range parts {
+		if i > 0 {
+			sb.WriteString(rapid.SampledFrom([]string{"&", "&", "&", ";", "&&"}).Draw(t, "qsep"))
+		}
+		sb.WriteString(p)
+	}
+	return sb.String()
 }
 
 func genChunks(t *rapid.T, size int) []int {
